@@ -299,3 +299,57 @@ _run_k1 = run
 def run(ctx, rep):
     _run_k1(ctx, rep)
     run_accessors(ctx, rep)
+
+
+# ---------------------------------------------------------------------------------------------
+# K1b  what the boot-sector decoder overwrites after reading is confined to the fields the specification makes optional
+
+# FAT specification: BS_VolID, BS_VolLab and BS_FilSysType are meaningful only when BS_BootSig is 0x29. Every other field
+# of the BPB - in particular BS_Reserved1, the status byte - is valid whatever the signature says.
+EXT_SIG_DEPENDENT_SPEC_FIELDS = ('BS_VolID', 'BS_VolLab', 'BS_FilSysType')
+BPB_DESERIALIZE = 'fatfs::boot_sector::BiosParameterBlock::deserialize'
+
+
+def run_decoder_overwrites(ctx, rep):
+    facts = ctx.facts
+    fn = facts.fns.get(BPB_DESERIALIZE)
+    if fn is None:
+        rep.machinery('ANCHOR-MISSING ' + BPB_DESERIALIZE)
+        return
+    spec = json.load(open(os.path.join(VERIF, 'tables', 'spec_layouts.json')))
+    allowed = {r['field'] for lay in ('boot_sector_fat12_16', 'boot_sector_fat32') for r in spec[lay]
+               if r['spec'] in EXT_SIG_DEPENDENT_SPEC_FIELDS}
+    d = Deps(fn)
+    over = {}
+    for bi in fn.reachable():
+        for s in fn.blocks[bi]['stmts']:
+            if s['k'] != 'assign' or not s['lhs']['p']:
+                continue
+            names = [e.get('n') for e in s['lhs']['p'] if 'f' in e and e.get('n')]
+            if len(names) != 1:
+                continue
+            rv = s['rv']
+            toks = set()
+            from model import operands_of_rvalue
+            for o in operands_of_rvalue(rv):
+                toks |= d.of_operand(o)
+            from_device = any(tk[0] == 'call' and tk[1].rsplit('::', 1)[-1].startswith(('read_', 'read')) for tk in toks) or \
+                any(tk[0] == 'param' for tk in toks)
+            if rv['k'] in ('use', 'repeat', 'cast', 'agg') and not from_device and not any(tk[0] == 'field' for tk in toks):
+                over.setdefault(names[0], fn.loc(s['span']))
+    bad = sorted(f for f in over if f not in allowed)
+    rep.oblige('K1b', fn.name, ok=not bad, nontrivial=True,
+               sample={'fn': fn.name, 'fields_overwritten_with_constants_after_decoding': sorted(over), 'allowed_by_the_specification': sorted(allowed)})
+    if bad:
+        rep.violation('K1b', vkey('K1b', fn.name, 'overwrites:' + ','.join(bad), ''), over[bad[0]],
+                      'the boot-sector decoder replaces %s by a constant after reading it; the specification makes only %s '
+                      'depend on the boot signature, every other field (the status byte BS_Reserved1 in particular) is what the '
+                      'volume says' % (bad, sorted(allowed)))
+
+
+_run_k5 = run
+
+
+def run(ctx, rep):
+    _run_k5(ctx, rep)
+    run_decoder_overwrites(ctx, rep)
